@@ -244,7 +244,10 @@ def execute(plan, out, log):
             if R.exc is not None:
                 raise Discard(f"solver_raised:{name}:{type(R.exc).__name__}")
             sol = R.sol
-            truncated = bool(sim.failed_instances()) or bool(f and f["kind"] == "F4")
+            backend_said_so = any(("solve_ivp failed" in w[2]) or ("solve_dae failed" in w[2]) for w in sim.warnings)
+            if backend_said_so and not (f and f["kind"] == "F4"):
+                out["probes"]["truncated_organically"] += 1
+            truncated = bool(sim.failed_instances()) or bool(f and f["kind"] == "F4") or backend_said_so
     if sim.fired:
         out["faults"]["F1_newton_failure"] += len(sim.fired)
     if truncated:
@@ -268,7 +271,9 @@ def execute(plan, out, log):
                 out["violations"].append(violation("grid_end", name, f"{len(t)} load steps returned, {len(want)} requested, run not truncated"))
                 return
         else:
-            if not check_grid(sol, t0, t1, dt, name, truncated, out["violations"]):
+            if truncated and nt == 0:
+                out["probes"]["truncated_to_nothing"] += 1
+            elif not check_grid(sol, t0, t1, dt, name, truncated, out["violations"]):
                 return
     if plan["saveload"]:
         save_load(sol, name, out)
